@@ -15,9 +15,11 @@ from harness import worlds
 
 PROP = "C17"
 LEAN_MODULE = "Ztr.Props.C17Doc"
-LEAN_DEPS = ["Ztr.Props.C17"]
+LEAN_DEPS = ["Ztr.Props.C17", "Ztr.Props.C17File"]
 THEOREMS = ["Ztr.Xml.sanitize_xmlChar", "Ztr.Xml.escAttr_ok", "Ztr.Xml.escText_ok", "Ztr.Xml.C17_wellformed",
-            "Ztr.Xml.C17_each_once", "Ztr.Xml.C17_counts", "Ztr.Xml.C17_subtest_name", "Ztr.Xml.C17_doctest_name"]
+            "Ztr.Xml.C17_each_once", "Ztr.Xml.C17_counts", "Ztr.Xml.C17_subtest_name", "Ztr.Xml.C17_doctest_name",
+            "Ztr.XmlFile.C17F_no_separator", "Ztr.XmlFile.C17F_decode", "Ztr.XmlFile.C17F_injective",
+            "Ztr.XmlFile.C17F_naive_collides"]
 RULE = ("histories of 1-12 result events (success / failure / error) for unittest cases, failing subtests and "
         "StartUpFailures over several classes, with exception messages and subtest descriptions drawn from every class "
         "of code point (C0/C1 controls, NUL, lone surrogates, non-characters U+FFFE/FFFF, astral, '<&>\"\\'', ']]>', CR/LF/"
@@ -79,6 +81,9 @@ def make_tb(exc, special, idx):
         pass
 
 
+RAW_NAMES = {}     # case index -> the names of the report files as they are on disk
+
+
 def run_direct(ctx, hist, idx):
     """hist: list of events {obj: [...], kind, msg}.  Returns (files dict name->text, error)"""
     from zope.testrunner.find import StartUpFailure
@@ -134,6 +139,7 @@ def run_direct(ctx, hist, idx):
         err = "%s: %s" % (type(e).__name__, e)
     files = {}
     rd = os.path.join(d, "testreports")
+    RAW_NAMES[idx] = sorted(os.listdir(rd)) if os.path.isdir(rd) else []
     if os.path.isdir(rd):
         for f in os.listdir(rd):
             # (a suite name is its file's name; a path separator or a '%' in it is written %XX)
@@ -250,7 +256,7 @@ def run(ctx):
         queries.append({"op": "xml", "events": mev, "host": [ord(c) for c in host], "stamp": [ord(c) for c in stamp],
                         "suite_time": [ord(c) for c in "0.0"]})
     answers = ctx.driver.batch(queries)
-    for hist, (files, err, mev), ans in zip(hists, reals, answers):
+    for case_idx, (hist, (files, err, mev), ans) in enumerate(zip(hists, reals, answers)):
         case = {"history": [{"obj": e["obj"], "kind": e["kind"], "msg": e["msg"][:200].encode("unicode_escape").decode(),
                              "tb": None if e.get("tb") is None else e["tb"].encode("unicode_escape").decode()}
                             for e in hist], "error": err, "files": {k: v[:1500] for k, v in files.items()}}
@@ -273,6 +279,12 @@ def run(ctx):
         model = {"".join(chr(c) for c in n_): "".join(chr(c) for c in t) for n_, t in ans["files"]}
         if set(model) != set(files):
             ctx.drift("xml.record", "model files %r, real %r" % (sorted(model), sorted(files)), case)
+            continue
+        # the files on disk carry the names Model/XmlFile gives the suites (one file per suite, in the reports directory)
+        mstems = sorted("".join(chr(c) for c in st) + ".xml" for st in ans.get("stems", []))
+        raw = RAW_NAMES.get(case_idx)
+        if raw is not None and mstems != raw:
+            ctx.drift("xml.filenames", "report files on disk %r, model %r" % (raw, mstems), case)
             continue
         for name in files:
             if model[name] != files[name]:
